@@ -5,7 +5,10 @@ import (
 	"flag"
 	"fmt"
 	"os"
+	"sort"
 	"strconv"
+
+	"golang.org/x/tools/go/ssa"
 	"strings"
 )
 
@@ -49,6 +52,8 @@ func cmdRun(argv []string) {
 	fs.StringVar(&spec.Solver, "solver", "z3", "z3|z3-new|cvc5")
 	fs.IntVar(&spec.Witnesses, "witnesses", 0, "witnesses to keep")
 	verbose := fs.Bool("v", false, "print violations in detail")
+	fixed := fs.String("fix", "", "comma separated nondet values: run one concrete path")
+	fs.BoolVar(&spec.NoMerge, "nomerge", false, "disable merged evaluation of pure functions")
 	fs.Parse(argv)
 	if *harness != "" {
 		spec.Harness = strings.Split(*harness, ",")
@@ -62,6 +67,15 @@ func cmdRun(argv []string) {
 			spec.Args = append(spec.Args, n)
 		}
 	}
+	if *fixed != "" {
+		for _, a := range strings.Split(*fixed, ",") {
+			n, err := strconv.ParseUint(a, 0, 64)
+			if err != nil {
+				fatal(err)
+			}
+			spec.Fixed = append(spec.Fixed, n)
+		}
+	}
 	if *preempt >= 0 {
 		spec.Preempt = preempt
 	}
@@ -73,7 +87,34 @@ func cmdRun(argv []string) {
 	if entry == nil {
 		fatal(fmt.Errorf("entry %s not found in %s", spec.Entry, ld.Pkg.Pkg.Path()))
 	}
+	if os.Getenv("GOSYM_PROFILE") != "" {
+		profileSteps = map[*ssa.Function]int{}
+		forkSites = map[string]int{}
+		spec.Workers = 1
+	}
 	sum := Explore(ld.Prog, entry, spec)
+	if profileSteps != nil {
+		type kv struct {
+			f *ssa.Function
+			n int
+		}
+		var l []kv
+		for f, n := range profileSteps {
+			l = append(l, kv{f, n})
+		}
+		sort.Slice(l, func(i, j int) bool { return l[i].n > l[j].n })
+		for i := 0; i < 25 && i < len(l); i++ {
+			fmt.Fprintf(os.Stderr, "%10d %s\n", l[i].n, l[i].f)
+		}
+		var fk []string
+		for k := range forkSites {
+			fk = append(fk, k)
+		}
+		sort.Slice(fk, func(i, j int) bool { return forkSites[fk[i]] > forkSites[fk[j]] })
+		for i := 0; i < 30 && i < len(fk); i++ {
+			fmt.Fprintf(os.Stderr, "FORK %8d %s\n", forkSites[fk[i]], fk[i])
+		}
+	}
 	out, _ := json.MarshalIndent(sum, "", " ")
 	if !*verbose {
 		// drop the long function list in non-verbose mode
